@@ -234,14 +234,39 @@ def main():
         for name, msg in gen_errors:
             if f"PyEcc.Gen.{name}" in closure:
                 broken["tie"].append(f"Gen/{name}: {msg[:600]}")
+        # canonical-text substitution (tools/translate/canon.py): where the translation of the current source differs from the
+        # canonical text the theorems are proved about, the generated ties `GenRaw.X.f = Gen.X.f` are obligations of this property
+        for x, chg in sorted(gen.get("canon_substituted", {}).items()):
+            if f"PyEcc.Gen.{x}" in closure:
+                m = f"Gen.TieRaw{x}"
+                path = os.path.join(LEAN_DIR, "PyEcc", "Gen", f"TieRaw{x}.lean")
+                if os.path.exists(path) and m not in thms_by_mod:
+                    mods.append(m)
+                    thms_by_mod[m] = theorems_of(path)
         audit_path = write_audit(prop, thms_by_mod)
-        targets = [f"PyEcc.{m}" for m in mods] + ["driver"]
+        tie_mods = [m for m in mods if m.startswith("Gen.TieRaw")]
+        targets = [f"PyEcc.{m}" for m in mods if m not in tie_mods] + ["driver"]
         rc, out, err = sh(["lake", "build"] + targets, cwd=LEAN_DIR, timeout=7200)
         build_out = out + err
         built_ok = rc == 0
+        tie_timeout = False
+        if tie_mods:
+            # the generated ties are built separately and under a time limit: a tie that does not check in time is a broken
+            # obligation (not an infrastructure failure) — the failing-input search then decides what is reported
+            try:
+                rc2, out2, err2 = sh(["lake", "build"] + [f"PyEcc.{m}" for m in tie_mods], cwd=LEAN_DIR, timeout=600)
+            except subprocess.TimeoutExpired:
+                rc2, out2, err2 = 1, "", ""
+                tie_timeout = True
+                sh(["pkill", "-f", "PyEcc/Gen/TieRaw"])
+                for m in tie_mods:
+                    broken["theorems"] += [n for n, _, _ in thms_by_mod[m] if n not in broken["theorems"]]
+            build_out += out2 + err2
+            built_ok = built_ok and rc2 == 0
+            rc = rc or rc2
         if not built_ok:
             errs = build_errors(build_out)
-            if not errs:
+            if not errs and not tie_timeout:
                 infra.append("lake build failed without Lean errors: " + build_out[-800:])
             for f, ln, msg in errs:
                 hit = None
@@ -425,6 +450,7 @@ def main():
             "known_findings_replayed": len(known_hits),
             "branch_histogram": dict(sorted(hist.items())[:80]),
             "regenerated": gen.get("changed", []),
+            "canon_substituted": gen.get("canon_substituted", {}),
             "leanchecker_ok": leanchecker,
             "broken": {k: v[:10] for k, v in broken.items() if v},
             "infrastructure": infra,
